@@ -95,3 +95,14 @@ def c05_bank_lockout(v, case):
     if vb is None or not ob:
         return False
     return [list(x) for x in ob] == [list(vb)]
+
+
+# ------------------------------------------------------------------------------------------------ C13
+def c13_bypass_partial_word_flush(v, case):
+    """LiteDRAMFIFO(with_bypass=True) with a DRAM word wider than the stream word: when the DRAM path runs empty while the
+    pre-converter holds a partial DRAM word, the PUMP_PRECONVERTER / DRAIN_POSTCONVERTER states complete the word with
+    padding beats, and nothing removes the padding again: extra words appear on the output and the FSM can stay in
+    DRAIN_POSTCONVERTER for ever.  Accepts only witnesses of runs with bypass, ratio > 1 that visited those states."""
+    if not (v.get("bypass") and (v.get("ratio") or 1) > 1 and v.get("visited_pump_or_drain_state")):
+        return False
+    return v.get("kind") in ("output-stream-differs", "more-words-out-than-in", "no-progress")
